@@ -1,4 +1,4 @@
 SPECIFICATION Spec
-CONSTANTS Kinds = {"K1"}  Ids = {1, 2}  Ctrls = {"m", "q"}  Cfg <- CfgB  Alt <- AltNoneMQ  Cached = {}  MaxWrites = 4  MaxFaults = 0  MapTo <- MapSame
+CONSTANTS Kinds = {"K1"}  Ids = {1, 2}  Ctrls = {"m", "q"}  Cfg <- CfgB  Alt <- AltNoneMQ  Cached = {}  MaxWrites = 4  MaxFaults = 0  Noops = FALSE  MapTo <- MapSame
 INVARIANTS NoLostWakeup MappedReachesPrimaries CacheCoherentWhenQuiet
 CHECK_DEADLOCK FALSE
